@@ -2,7 +2,7 @@
    Depends on the model only.  The int(s, 0) oracle is instantiated by pyint0_ref; the stream
    `pyint0` compares that instance with Python's int(s, 0) itself. *)
 From Coq Require Import QArith Qabs Ascii String.
-From CKT Require Import Common.Base Model.Reconstruct.
+From CKT Require Import Common.Base Model.Observables Model.Grouping Model.Reconstruct Model.ReconstructGrouping.
 Close Scope Q_scope.
 Open Scope nat_scope.
 
@@ -59,3 +59,17 @@ Definition chk_lookup (c : list lgroup * list letters * list (list (nat * nat)))
 Definition close (a b : Q) : bool := Qle_bool (Qabs (a - b)) (Qmake 1 1000000000).
 Definition chk_reconstruct_tol (c : robj * list Q * oobj * res (list Q)) : bool :=
   let '(r, coeffs, o, e) := c in res_beq (list_beq close) (reconstruct pyint0_ref r coeffs o) e.
+
+(* ObservableCollection(subobs) through C11's model, then read as reconstruct_expectation_values reads it:
+   (sub-observables, oracle unique(), oracle group_commuting(), expected [(len(pauli_indices), pauli_bitmasks)],
+    expected [lookup[subobs[k]]]) *)
+Definition PP := mkP.
+Definition chk_collection_part
+  (c : list pauli * list pauli * list (list pauli) * list (nat * list N) * list (list (nat * nat))) : bool :=
+  let '(subobs, u, gs, eg, el) := c in
+  match part_of_observables 0 subobs (mkOracle u gs) with
+  | Ok p => list_beq (pair_beq Nat.eqb (list_beq N.eqb)) (pgroups p) eg
+            && list_beq (list_beq (pair_beq Nat.eqb Nat.eqb)) (plookup p) el
+            && grouping_contract subobs (mkOracle u gs)
+  | _ => false
+  end.
